@@ -102,6 +102,15 @@ pub fn run(v: &Value) -> Value {
         .unwrap();
     rt.block_on(async {
         let mut outs = vec![];
+        // readers held open across steps (C08): name -> (transaction, iterator)
+        let mut readers: std::collections::HashMap<
+            String,
+            (
+                risinglight::storage::verif::SecondaryTransaction,
+                Option<risinglight::storage::verif::SecondaryTableTxnIterator>,
+                usize,
+            ),
+        > = Default::default();
         // "atomic": true keeps the (paused) clock from auto-advancing while a statement waits for
         // file I/O, so that the background compactor / vacuum only run inside `sleep_ms` steps
         // (and once when the database is opened): a task that keeps the runtime busy.
@@ -268,6 +277,102 @@ pub fn run(v: &Value) -> Value {
                     }
                 }
                 outs.push(json!({"slept": ms}));
+            } else if let Some(r) = step.get("reader_open") {
+                // open a scan on a table of the disk engine and keep it (pins a version)
+                use risinglight::storage::{ScanOptions, Storage, StorageColumnRef, Table, Transaction};
+                let (Some(dbr), Some(name), Some(table)) = (db.as_ref(), r["name"].as_str(), r["table"].as_u64()) else {
+                    outs.push(json!({"err": "reader_open: bad arguments"}));
+                    continue;
+                };
+                let Some(st) = dbr.verif_secondary() else {
+                    outs.push(json!({"err": "not a disk database"}));
+                    continue;
+                };
+                let tid = risinglight::catalog::TableRefId::new(1, table as u32);
+                // "defer_scan": true only starts the transaction (pins the version); the scan is opened by a later reader_scan step
+                let defer = r["defer_scan"].as_bool() == Some(true);
+                let res = async {
+                    let t = st.get_table(tid)?;
+                    let ncols = t.columns()?.len();
+                    let txn = t.read().await?;
+                    let it = if defer {
+                        None
+                    } else {
+                        let cols: Vec<StorageColumnRef> = (0..ncols).map(|i| StorageColumnRef::Idx(i as u32)).collect();
+                        Some(txn.scan(&cols, ScanOptions::default()).await?)
+                    };
+                    Ok::<_, risinglight::storage::TracedStorageError>((txn, it, ncols))
+                }
+                .await;
+                match res {
+                    Ok(p) => {
+                        readers.insert(name.to_string(), p);
+                        outs.push(json!({"reader": name}));
+                    }
+                    Err(e) => outs.push(json!({"err": errstr(e)})),
+                }
+            } else if let Some(name) = step["reader_scan"].as_str() {
+                use risinglight::storage::{ScanOptions, StorageColumnRef, Transaction};
+                match readers.get_mut(name) {
+                    Some((txn, it, ncols)) => {
+                        let cols: Vec<StorageColumnRef> = (0..*ncols).map(|i| StorageColumnRef::Idx(i as u32)).collect();
+                        let fut = std::panic::AssertUnwindSafe(txn.scan(&cols, ScanOptions::default()));
+                        match futures::FutureExt::catch_unwind(fut).await {
+                            Ok(Ok(i)) => {
+                                *it = Some(i);
+                                outs.push(json!({"scan": name}));
+                            }
+                            Ok(Err(e)) => outs.push(json!({"err": errstr(e)})),
+                            Err(p) => outs.push(json!({"panic": panic_msg(p)})),
+                        }
+                    }
+                    None => outs.push(json!({"err": "no such reader"})),
+                }
+            } else if let Some(name) = step["reader_next"].as_str() {
+                use risinglight::storage::TxnIterator;
+                match readers.get_mut(name) {
+                    Some((_, Some(it), _)) => {
+                        let fut = std::panic::AssertUnwindSafe(it.next_batch(step["size"].as_u64().map(|x| x as usize)));
+                        match futures::FutureExt::catch_unwind(fut).await {
+                            Ok(Ok(Some(chunk))) => {
+                                let rows: Vec<Value> = chunk.rows().map(|r| Value::Array(r.values().map(|v| val_to_json(&v)).collect())).collect();
+                                outs.push(json!({"batch": rows}));
+                            }
+                            Ok(Ok(None)) => outs.push(json!({"batch": null})),
+                            Ok(Err(e)) => outs.push(json!({"err": errstr(e)})),
+                            Err(p) => outs.push(json!({"panic": panic_msg(p)})),
+                        }
+                    }
+                    Some((_, None, _)) => outs.push(json!({"err": "scan not opened"})),
+                    None => outs.push(json!({"err": "no such reader"})),
+                }
+            } else if let Some(name) = step["reader_close"].as_str() {
+                use risinglight::storage::Transaction;
+                match readers.remove(name) {
+                    Some((txn, it, _)) => {
+                        drop(it);
+                        let r = txn.abort().await;
+                        outs.push(json!({"closed": r.is_ok()}));
+                    }
+                    None => outs.push(json!({"err": "no such reader"})),
+                }
+            } else if step["version"].as_bool() == Some(true) {
+                // the version manager's bookkeeping (after letting background tasks settle)
+                let Some(dbr) = db.as_ref() else {
+                    outs.push(json!({"err": "database is closed"}));
+                    continue;
+                };
+                if atomic {
+                    settle(dbr).await;
+                }
+                match dbr.verif_secondary() {
+                    Some(st) => {
+                        let v = st.verif_version_state();
+                        outs.push(json!({"version": {"epoch": v.epoch, "status": v.status, "ref_cnt": v.ref_cnt,
+                                                     "pending": v.pending_deletions, "pool": v.pool}, "ls": list_dir(&path)}));
+                    }
+                    None => outs.push(json!({"err": "not a disk database"})),
+                }
             } else if let Some(f) = step.get("fault") {
                 // run a statement with a fault armed at (operator index, item index), or just observe the operators
                 let Some(dbr) = db.as_ref() else {
@@ -377,6 +482,11 @@ pub fn run(v: &Value) -> Value {
         }
         if step_no > 0 {
             mark(format!("{}_end", step_no - 1));
+        }
+        for (_, (txn, it, _)) in readers.drain() {
+            use risinglight::storage::Transaction;
+            drop(it);
+            let _ = txn.abort().await;
         }
         busy.store(false, std::sync::atomic::Ordering::SeqCst);
         if let Some(d) = db.take() {
